@@ -56,7 +56,7 @@ BASES = [2, 2, 3, 10, 10, 16, 36]
 # the checker relies on CoqInterval: exactly the four standard-library axioms of the classical reals
 EXTRA_AXIOMS = ()
 
-LEVEL_TEXT = ("Coq theorems (coq/props/C11.v, 86 pinned). (1) Soundness of the certified checkers check_exp / check_expm1 / check_ln / "
+LEVEL_TEXT = ("Coq theorems (coq/props/C11.v, 108 pinned). (1) Soundness of the certified checkers check_exp / check_expm1 / check_ln / "
               "check_ln1p / check_powi / check_powf for ALL inputs and all working precisions, Newton schedules and exponent guesses: a "
               "verdict VAccept proves r = t or B^E <= |t| and |r - t| < B^(E-p+1) for the true real value t (exp x, exp x - 1, ln x, "
               "ln(1+x), x^n, x^y as real numbers) and r = t if the answer was flagged Exact; VReject proves |t| < B^(E+1) and "
@@ -93,7 +93,26 @@ LEVEL_TEXT = ("Coq theorems (coq/props/C11.v, 86 pinned). (1) Soundness of the c
               "the COMPUTED logarithm L, and the working value of the last powering equals exp x * B^-q * Theta with "
               "Theta = exp((x'-x) - q(L - ln B) + (r - r0)) ths^N thp as an identity (the power of B is exact); (e) final: "
               "C11_exp_nearest_1ulp_partial - if Theta is within d of 1 and 2 d B^p <= 1 the rounded, shifted result is within one ulp "
-              "of exp x (nearest modes). (5) The as-is models refine the entry logic (unlimited precision panics - powi iff the "
+              "of exp x (nearest modes). Round 5 closes two of the three missing pieces and composes the layers into a theorem about "
+              "ElemAsis.exp_internal itself: (i) EVERY addition of the series loops meets C03's contract - an effective addition "
+              "(same-sign operands, ANY lengths) is outside C03's class add_short_class, where the model of the code equals the "
+              "model of the repaired code (b8f1245), which is correct for all operands (C03_add_repaired_any_length): "
+              "C11_add_contract_is_one_rounding, C11_fb_add_same_sign_any_length; every returning run of ElemAsis.exp_series_loop / "
+              "iacoth_loop is a trace of the rounded loop of the analysis with the next increase below B^(sub_ulp_exp) "
+              "(C11_exp_series_loop_is_trace, C11_iacoth_loop_is_trace, C11_exp_series_asis_error: no hypothesis about the "
+              "additions left); (ii) ln_base: A_K(z) <= atanh z <= A_K(z) + t_(K+1)(z)/(1-z^2) by monotonicity (mean value theorem, "
+              "closed-form derivative; C11_atanh_series_tail), ln 2 = 4 atanh(1/6) + 2 atanh(1/99), ln 10 = 3 ln 2 + 2 atanh(1/9) "
+              "(C11_ln2_ln10_formulas), the rounded iacoth loop sum_K = A_K (1+-u)^(10K+16) (C11_atanh_series_error, "
+              "C11_iacoth_asis_error), and with the contract of Repr::digits_lb (a lower bound of the digit count) the relative "
+              "errors of ElemAsis.iacoth, ln2, ln10 and ln_base for B = 2, B = 10 and every power of two "
+              "(C11_iacoth_asis_relative_error, C11_ln2_asis_relative_error, C11_ln_base_error_base2 / _base10 / _powers_of_two); "
+              "(iii) C11_exp_internal_scaled_structure (exp_internal = series part; Context::powi with B^n; << q, by computation) and "
+              "C11_exp_asis_nearest_1ulp_partial: ElemAsis.exp_internal fuel p m s e false = Ok a, nearest mode, any B >= 2, p >= 1, "
+              "s <> 0, any f32 layer with non-negative `as usize` and digits_lb <= digits, ln_base within relative error eL, the "
+              "series value not an over-long operand of the powering, and the explicit inequality 2 (a + B^n es) + dp <= d <= 1, "
+              "2 d B^p <= 1 between |x|, eL, the fuel (bound of the number of series terms) and the regenerated working precisions "
+              "=> a is flagged Inexact and within one ulp of exp x; C11_exp_asis_nearest_1ulp_base2_partial instantiates eL for "
+              "B = 2; the example (exp 1 at 64 bits) discharges every hypothesis. (5) The as-is models refine the entry logic (unlimited precision panics - powi iff the "
               "exponent is negative -, domain panics, Exact shortcuts return the true value) and flag nothing Exact outside the "
               "shortcuts (exp / ln: never; powf: only 1^y = 1), for every f32 estimate layer. (6) Termination: FBig::sub_ulp is positive "
               "and at least |sum| B^-(2P+2) for every digit estimate; rounded series loops stop within series_fuel B P iterations. "
@@ -107,11 +126,18 @@ LEVEL_NOTE = ("PARTIAL. THEOREM REGION (about the as-is model, all inputs): powi
 "instance; longer than twice the working precision = open finding powi_overlong_operand, root cause C03 F08). For exp the "
               "layers (guard digits vs powering digits, series error, instances of multiplication / division / Euclidean division, "
               "reduction and recombination identities, last rounding) are theorems, but the unconditional one-ulp statement for "
-              "ElemAsis.exp_internal is NOT proved: C11_exp_nearest_1ulp_partial leaves exactly (i) the rounding contract of the FBig "
-              "addition for the sums of the loop (C03 proves it for operands of at most P digits and bounds the result by P+1 digits "
-              "only; that same-sign sums return at most P digits is missing), (ii) the error of ln_base at the working precision "
-              "(atanh / iacoth loops), (iii) the inequality between the number of series terms and the heuristic part of the guard "
-              "digits (needs a lower bound on the abstract f32 estimate layer). exp_m1 (unscaled branch, alternating series), ln, "
+              "ElemAsis.exp_internal is NOT proved. Round 5: pieces (i) the additions of the loops and (ii) the error of ln_base "
+              "(B = 2, 10, powers of two) are theorems; THEOREM REGION of exp = (Context::exp / FBig::exp, modes HalfEven and "
+              "HalfAway, every base B >= 2 given a bound eL of the relative error of ln_base - proved for B in {2, 10, 4, 8, 16, 32, ...}, "
+              "instantiated in the final statement for B = 2 -, every precision p >= 1, every nonzero argument) UNDER the explicit "
+              "side conditions of C11_exp_asis_nearest_1ulp_partial: digits_lb is a lower bound of the digit count (contract of "
+              "the f32 layer), the model returns with fuel f, 2 (a + B^n es(f)) + dp <= d <= 1 and 2 d B^p <= 1 where "
+              "es(f) = ((f+1) u + 2u)/(1 - (f+1) u - 2u), u = B^(1-wp)/2, a = u |x| + (|x|(1+u)/(ln B (1-eL)) + 1) eL ln B + "
+              "u ln B (1+eL), dp = (B^n - 1) u'/(1 - (B^n - 1) u'), ln B (1+eL)(1+u) 2 <= B^n, and the series value has at most "
+              "2 (p + bit_len B^n + bit_len p) digits (otherwise class of finding F07). What is left of piece (iii) is exactly: "
+              "that the loops stop within a fuel f satisfying the inequality, i.e. a lower bound of the heuristic guard digits "
+              "computed in f32 (abstract here) against the term count; with the real guard digits the inequality holds with room "
+              "(example: p = 64, B = 2, fuel 80). exp in bases 3, 36 (ln_base through ln_internal), exp_m1 (unscaled branch, alternating series), ln, "
               "ln_1p, powf: modelled faithfully and compared bit for bit, accuracy decided per generated instance by the certified "
               "checker (every (function, mode, base, precision) outside the powi region above). Undecided instances (results exactly "
               "one ulp from an exactly representable x^y with fractional y) are counted and reported, never passed. In the directed "
@@ -122,6 +148,8 @@ LEVEL_NOTE = ("PARTIAL. THEOREM REGION (about the as-is model, all inputs): powi
 TECHNIQUE = ("Coq proof (certified interval checker on CoqInterval; value-level as-is models with regenerated guard-digit formulas; "
              "error analysis of powi for every base and precision >= 2; layered error analysis of exp: guard digits vs powering digits, "
              "rounded Maclaurin loop against the series definition of exp, exact reduction / recombination identities, last rounding; "
+             "additions of the loops by C03's any-length contract; atanh series by the mean value theorem, rounded iacoth loop, ln 2 / ln 10 formulas; "
+             "composition into a theorem about the as-is exp_internal with explicit numeric side conditions; "
              "termination of rounded series loops) + per-instance decision of every implementation answer + bit-for-bit "
              "correspondence of the as-is models")
 RULE = ("cases = op {exp, exp_m1, ln, ln_1p, powi, powf; Context and FBig forms} x base {2,3,10,16,36} x six modes x precision "
@@ -151,6 +179,7 @@ TRUSTED_BASE = [
     "extraction: ExtrOcamlBasic + ExtrOcamlZBigInt + coq/extract/FastZ.v directives + `Extract Constant ClassicalDedekindReals.sig_forall_dec => (fun _ -> assert false)` in coq/extract/Extract_c11.v (never called by the Z-only enclosure code); zarith 1.12",
     "oracle/driver_c11.ml chooses working precisions and Newton schedules only, and instantiates the abstract f32 operations of Float/ElemF32.v with IEEE single arithmetic (double operations rounded to single; log2 = double log2 rounded to single, which differs from libm's log2f by one ulp on about 1300 of the 2^24 integer arguments): used by the fidelity comparison only; harness/src/bin/c11.rs and hlib (values moved through raw words)",
     "tools/translate_c11_r3.py: reads the guard-digit / working-precision formulas of float/src/exp.rs, float/src/log.rs and the `type Reverse` table of float/src/round.rs into coq/gen/ElemParams.v at plug-in import (typed expression grammar: + - * / << as, .log2_est() .bit_len() .max(); reading of `x as usize` as f_to_usize, `.log2_est()` of an unsigned primitive as f32::log2 of the converted value; the `n` in pow_guard_digits is inlined as the regenerated exp_n_gen)",
+    "round 5 theorems about exp / ln_base take two properties of the f32 estimate layer as hypotheses (`as usize` is non-negative; Repr::digits_lb is a lower bound of the digit count) - they are not proved of IEEE single arithmetic / libm log2f here",
     "IBig arithmetic below the float layer behaves as Z (C01, C02); the float layer as modelled for C03 (repr_round, mul, sqr, repr_div, the four addition bodies); comparisons of floats as order of values (C05)",
 ]
 ASSUMPTIONS = [
